@@ -126,7 +126,7 @@ impl Property for C18 {
         tier.pick(40_000, 1_000_000)
     }
     fn strategy(&self, tier: Tier) -> BoxedStrategy<Self::Raw> {
-        crate::scale::with_mid((raw_sem(tier.pick(3, 4), 1..=1, 5, tier.pick(16, 22)), any::<bool>()).boxed(), 99, 1, tier.pick(600, 2500))
+        crate::scale::with_mid((raw_sem(tier.pick(3, 4), 1..=1, 5, tier.pick(16, 22)), any::<bool>()).boxed(), tier.pick(99, 249), 1, tier.pick(600, 2500))
     }
     fn check_raw(&self, raw: &Self::Raw) -> Verdict {
         let raw = match raw {
